@@ -399,6 +399,9 @@ inline typename std::enable_if<!std::is_pointer<T>::value>::type mem_drop(T &&se
 template<typename T>
 inline typename std::enable_if<std::is_pointer<T>::value>::type mem_drop(T &&self) noexcept {}
 
+/** Nothing to destruct in place of a void context (see StoreAll). */
+inline void mem_drop(bool) noexcept {}
+
 /** Forget the object's resources (null them out). */
 template<typename T>
 inline typename std::enable_if<!std::is_pointer<T>::value>::type mem_forget(T &self) noexcept {
